@@ -116,6 +116,26 @@ func (e *Engine) GenUnit(fn *ssa.Function) (u *Unit) {
 
 	order := g.analyseCFG()
 	g.nameLoops()
+	// a loop clause whose loop is no longer there (the loop was rewritten in another form): the invariants have lost their
+	// anchor; what they carried cannot be decided, which is not a violation of anything
+	if fc != nil && len(fc.Loops) > 0 {
+		have := map[string]bool{}
+		for _, sg := range g.loopSig {
+			have[sg] = true
+		}
+		singleFallback := len(g.loopBody) == 1 && len(fc.Loops) == 1
+		var lost []string
+		for key := range fc.Loops {
+			if strings.HasPrefix(key, "visit ") || have[key] || singleFallback {
+				continue
+			}
+			lost = append(lost, key)
+		}
+		sort.Strings(lost)
+		for _, key := range lost {
+			g.unsupported("loop clause without its loop (contract anchor missing): loop %s", key)
+		}
+	}
 	u.Blocks = len(order)
 	for _, b := range order {
 		u.Instrs += len(b.Instrs)
